@@ -374,7 +374,7 @@ def plan(tier, seed):
     if tier == "quick":
         lay = [("numpy", 40, 3, 1, 1500)] * 8 + [("numpy", 40, 3, 2, 1500)] * 2 + [("jax", 30, 2, 0, 0), ("pytorch", 30, 2, 1, 800), ("pytorch", 30, 2, 0, 0), ("tensorflow", 20, 1, 0, 0), ("jax", 30, 2, 1, 600), ("tensorflow", 20, 1, 0, 0)]
     else:
-        lay = [("numpy", 1500, 40, 14, 2000)] * 10 + [("jax", 600, 15, 3, 1000)] * 2 + [("pytorch", 600, 20, 5, 1500)] * 2 + [("tensorflow", 300, 8, 1, 600)] * 2
+        lay = [("numpy", 3000, 80, 28, 2000)] * 10 + [("jax", 1200, 30, 6, 1000)] * 2 + [("pytorch", 1200, 40, 10, 1500)] * 2 + [("tensorflow", 600, 16, 2, 600)] * 2
     return [{"backend": b, "n_emp": e, "n_samp": s, "n_toys": t, "ntoys": nt, "seed": seed * 472882027 + i} for i, (b, e, s, t, nt) in enumerate(lay)]
 
 
